@@ -148,14 +148,14 @@ fn check(v: &Case, rep: &mut Rep) -> Result<(), String> {
 pub fn def(tier: Tier) -> PropertyDef {
     let src = (0u8..4, prop::collection::vec(0u64..6, 0..40));
     let strat = (
-        prop::collection::vec(src, 0..9),
+        prop_oneof![12 => prop::collection::vec(src.clone(), 0..9), 1 => prop::collection::vec(src, 9..48)],
         prop_oneof![2 => Just(0u32), 2 => 0u32..1000, 2 => 0u32..(u32::MAX - 100_000), 1 => (u32::MAX - 400)..=u32::MAX],
         0u8..16,
         prop_oneof![6 => Just(0u16), 3 => 1u16..5, 1 => 5u16..2000],
     );
     PropertyDef {
         id: "C09",
-        rule: "0..8 sources x 0..39 messages with reception times non-decreasing / all equal / unordered / many ties, optional runs of up to 2000 empty sources, arbitrary start index (up to the one that gives the last message index u32::MAX), both constructors and both new_or_single_it variants; messages tagged (source, position); oracle: permutation, per-source order, consecutive indices, ordered output if all sources ordered, chain = concatenation. Non-trivial: >=2 non-empty sources and (cross-source tie or empty source between non-empty ones).",
+        rule: "0..8 (sometimes up to 47) sources x 0..39 messages with reception times non-decreasing / all equal / unordered / many ties, optional runs of up to 2000 empty sources, arbitrary start index (up to the one that gives the last message index u32::MAX), both constructors and both new_or_single_it variants; messages tagged (source, position); oracle: permutation, per-source order, consecutive indices, ordered output if all sources ordered, chain = concatenation. Non-trivial: >=2 non-empty sources and (cross-source tie or empty source between non-empty ones).",
         assumptions: vec!["for the single source short cut (start index documented as ignored) sources are numbered from the start index as the callers do"],
         subs: vec![sub("merge_and_chain", tier.pick(1_500_000, 20_000_000), strat, check)
             .rates(&[("cross_source_tie", 0.2), ("empty_source_between", 0.1), ("single_source", 0.03), ("identical_messages_across_sources", 0.3), ("inexact_size_hint", 0.1), ("last_index_is_u32_max", 0.01)])
